@@ -40,6 +40,9 @@ pub struct Script {
 	/// while the re-mining delay runs, the closing transaction itself is re-mined at once (only what
 	/// spends its outputs stays unconfirmed)
 	pub remine_close_first: bool,
+	/// the peers are disconnected when the channel is force-closed: the other side learns of the close
+	/// from the chain only (and never tries to publish its own commitment)
+	pub offline_peer: bool,
 	pub total_blocks: u32,
 }
 
@@ -130,6 +133,9 @@ fn execute(sc: &Script, style: SyncStyle, replay: Option<&[ChainEv]>, twin: bool
 	}
 	if let Some(closer) = sc.closer {
 		let peer = w.nodes[1 - closer].id;
+		if sc.offline_peer {
+			w.disconnect(0, 1);
+		}
 		w.nodes[closer].cm.force_close_broadcasting_latest_txn(&cid, &peer, "c11".to_string()).map_err(|e| format!("{:?}", e))?;
 		w.pump();
 		w.run_to_quiescence(400);
@@ -330,7 +336,7 @@ pub fn scripts(tier: Tier) -> Vec<Script> {
 	for ct in cts {
 		for closer in [0usize, 1] {
 			for late in [false, true] {
-				v.push(Script { name: format!("{:?}-close{}-late{}", ct, closer, late as u8), ct, closer: Some(closer), late_preimage: late, claim_at_confs: None, reorg: None, remine_close_first: false, total_blocks: 300 });
+				v.push(Script { name: format!("{:?}-close{}-late{}", ct, closer, late as u8), ct, closer: Some(closer), late_preimage: late, claim_at_confs: None, reorg: None, remine_close_first: false, offline_peer: false, total_blocks: 300 });
 				let confs: Vec<u32> = if th { vec![1, 2, 3, 5] } else { vec![1, 3, 5] };
 				for c in confs {
 					for d in 1..=c.min(5) {
@@ -351,6 +357,7 @@ pub fn scripts(tier: Tier) -> Vec<Script> {
 								late_preimage: late,
 								claim_at_confs: None,
 								remine_close_first: false,
+								offline_peer: false,
 								reorg: Some((c, d, delay)),
 								total_blocks: 320,
 							});
@@ -364,16 +371,19 @@ pub fn scripts(tier: Tier) -> Vec<Script> {
 				if !th && (c, delay) == (2, 12) {
 					continue;
 				}
-				v.push(Script {
-					name: format!("{:?}-close{}-late1-reorg-c{}-d{}-close-first-delay{}", ct, closer, c, c, delay),
-					ct,
-					closer: Some(closer),
-					late_preimage: true,
-					claim_at_confs: None,
-					remine_close_first: true,
-					reorg: Some((c, c, delay)),
-					total_blocks: 330,
-				});
+				for offline_peer in [false, true] {
+					v.push(Script {
+						name: format!("{:?}-close{}-late1-reorg-c{}-d{}-close-first-delay{}{}", ct, closer, c, c, delay, if offline_peer { "-offline" } else { "" }),
+						ct,
+						closer: Some(closer),
+						late_preimage: true,
+						claim_at_confs: None,
+						remine_close_first: true,
+						offline_peer,
+						reorg: Some((c, c, delay)),
+						total_blocks: 330,
+					});
+				}
 			}
 			// the preimage reaches the monitor only after the closing transaction confirmed (k confirmations,
 			// still short of the anti-reorg depth); then a reorg that leaves the closing transaction in place
@@ -386,6 +396,7 @@ pub fn scripts(tier: Tier) -> Vec<Script> {
 					claim_at_confs: Some(k),
 					reorg: None,
 					remine_close_first: false,
+								offline_peer: false,
 					total_blocks: 300,
 				});
 				for c in (k + 1)..=5u32 {
@@ -404,6 +415,7 @@ pub fn scripts(tier: Tier) -> Vec<Script> {
 								late_preimage: false,
 								claim_at_confs: Some(k),
 								remine_close_first: false,
+								offline_peer: false,
 								reorg: Some((c, d, delay)),
 								total_blocks: 320,
 							});
@@ -442,6 +454,11 @@ pub fn run_script(sc: &Script) -> Result<ScriptResult, String> {
 	for style in SyncStyle::all() {
 		if style == SyncStyle::ListenFull {
 			continue;
+		}
+		if let Ok(only) = std::env::var("MC_C11_ONLY_STYLE") {
+			if format!("{:?}", style) != only {
+				continue;
+			}
 		}
 		let r = execute(sc, style, Some(&reference.events), false)?;
 		res.styles += 1;
